@@ -1,8 +1,18 @@
 import Sessions.Proofs.More.Cache12
 import Sessions.Proofs.More.Cache12World
+import Sessions.Proofs.More.Crash10
+import Sessions.Proofs.More.Chain05Inv
+import Sessions.Proofs.More.Chain05
+import Sessions.Proofs.More.Chain05Hist
 /-!
 # Further T-local and history-level theorems (namespace `Sx.More`)
 
 * `Cache12`      — C12: the cache keeps to its size, evicts least recently used, flushes before dropping (T-local)
 * `Cache12World` — C12 lifted: the size bound is kept by every model function, every `World.step`, every history
+* `Crash10`      — C10: an ID change (RegenerateID, LogIn, automatic rotation) is crash-safe at every crash point
+* `Chain05Inv`   — C05: the reference-structure invariant I3 (references point to later-minted ids), T-local
+                   preservation, `step_inv3`, `i3_all_histories`, acyclicity
+* `Chain05`      — C05: the back-stop, the clean-up goroutines, chains of any length resolve (`follow_fuel_enough`,
+                   `c05_chain_resolves`)
+* `Chain05Hist`  — C05: in a running process no reference record outlives its grace period (history level)
 -/
